@@ -404,7 +404,7 @@ int main(int argc, char** argv)
     struct PlanItem { int n; bool random_algos; bool light; };
     std::vector<PlanItem> plan;
     if (!big) plan = {{1, true, false}, {2, true, false}, {3, true, false}, {4, false, false}, {5, false, true}};
-    else plan = {{1, true, false}, {2, true, false}, {3, true, false}, {4, true, false}, {5, true, false}, {6, true, false}, {7, false, true}, {8, false, true}};
+    else plan = {{1, true, false}, {2, true, false}, {3, true, false}, {4, true, false}, {5, true, false}, {6, false, false}, {7, false, true}, {8, false, true}};
 
     Stats total;
     std::mutex mu;
